@@ -55,7 +55,7 @@ fn main() {
         let text = std::fs::read_to_string(&args[3]).expect("replay case file");
         let c: Case = text.lines().filter_map(|l| l.split_once('=')).map(|(k, v)| (k.to_string(), v.to_string())).collect();
         let mut m = model::Model::spawn();
-        let o = p.run(&c, &mut m);
+        let o = report::run_case(p.as_ref(), &c, &mut m);
         println!("case: {}", case_json_full(&c));
         println!("impl:  {}", o.impl_obs);
         println!("model: {}", o.model_obs);
